@@ -80,6 +80,80 @@ def declared_ok(tree_abs, enc):
     return False
 
 
+C1 = {0x80: 0x20AC, 0x82: 0x201A, 0x83: 0x0192, 0x84: 0x201E, 0x85: 0x2026, 0x86: 0x2020, 0x87: 0x2021, 0x88: 0x02C6,
+      0x89: 0x2030, 0x8A: 0x0160, 0x8B: 0x2039, 0x8C: 0x0152, 0x8E: 0x017D, 0x91: 0x2018, 0x92: 0x2019, 0x93: 0x201C,
+      0x94: 0x201D, 0x95: 0x2022, 0x96: 0x2013, 0x97: 0x2014, 0x98: 0x02DC, 0x99: 0x2122, 0x9A: 0x0161, 0x9B: 0x203A,
+      0x9C: 0x0153, 0x9E: 0x017E, 0x9F: 0x0178}
+_C1_TABLE = {k: chr(v) for k, v in C1.items()}
+
+
+def c1_remap(t):
+    """the tree with every U+0080..U+009F of the numeric-reference replacement table mapped (text and attribute values):
+    what the reader makes of an unencodable C1 control written as '&#x85;' (recorded defect C14-c1-fallback)"""
+    if t[0] in ("doc", "frag"):
+        return (t[0], [c1_remap(k) for k in t[1]])
+    if t[0] == "elem":
+        return ("elem", t[1], t[2], [(ns, n, v.translate(_C1_TABLE)) for ns, n, v in t[3]], [c1_remap(k) for k in t[4]])
+    if t[0] in ("text", "comment"):
+        return (t[0], t[1].translate(_C1_TABLE) if t[0] == "text" else t[1])
+    return t
+
+
+def lossy_encode(t, enc):
+    """the tree with every character that Python's codec `enc` ENCODES WITHOUT ERROR to bytes that decode to another
+    character replaced by that character (shift_jis: U+00A5 -> 0x5C -> '\\', U+203E -> 0x7E -> '~'; recorded defect
+    C15-lossy-encode: no error, hence no character reference)"""
+    def m(x):
+        out = []
+        for c in x:
+            try:
+                out.append(c.encode(enc).decode(enc))
+            except UnicodeError:
+                out.append(c)
+        return "".join(out)
+    if t[0] in ("doc", "frag"):
+        return (t[0], [lossy_encode(k, enc) for k in t[1]])
+    if t[0] == "elem":
+        return ("elem", t[1], t[2], [(ns, n, m(v)) for ns, n, v in t[3]], [lossy_encode(k, enc) for k in t[4]])
+    if t[0] == "text":
+        return ("text", m(t[1]))
+    return t
+
+
+def python_codec_reads_back(data, enc, expected):
+    """the codec mismatch and nothing else: decoded with PYTHON's codec of that name (the one the serializer encoded
+    with) the bytes parse to exactly the expected tree, so only the reader's choice of another codec for the label
+    makes the trees differ"""
+    import html5lib
+    try:
+        t = html5lib.parse(data.decode(enc), treebuilder="etree")
+    except Exception:
+        return False
+    return trees.merge_text(trees.from_etree(t)) == expected
+
+
+def bom_per_fragment_explains(data, enc, want, expected):
+    """the recorded UTF-16 defect and nothing else: the output carries a byte order mark in front of EVERY fragment;
+    with all but the first removed it is read back with the declared encoding, declares it, and gives the expected tree"""
+    import codecs
+    import html5lib
+    bom = next((b for b in (codecs.BOM_UTF32_LE, codecs.BOM_UTF32_BE, codecs.BOM_UTF16_LE, codecs.BOM_UTF16_BE)
+                if data.startswith(b)), None)
+    if bom is None:
+        return False
+    n = len(bom)
+    units = [data[i:i + n] for i in range(0, len(data), n)]
+    if units.count(bom) < 2:
+        return False
+    fixed = bom + b"".join(u for u in units if u != bom)
+    p = html5lib.HTMLParser(tree=html5lib.getTreeBuilder("etree"))
+    try:
+        a = trees.merge_text(trees.from_etree(p.parse(fixed)))
+    except Exception:
+        return False
+    return p.documentEncoding == want.name and declared_ok(a, enc) and a == expected
+
+
 def roundtrip(ctx, text, enc, omit):
     import html5lib
     from html5lib.serializer import HTMLSerializer
@@ -116,9 +190,11 @@ def roundtrip(ctx, text, enc, omit):
         return
     if enc.lower().replace("_", "-") in ("utf-16", "utf-16le", "utf-16be", "utf-32"):
         # known: str.encode("utf-16") writes a BOM per fragment and a UTF-16 <meta> means UTF-8 to the reader
-        t1 = html5lib.parse(plain, treebuilder="etree")
         if used is None or used.name != want.name or not declared_ok(a2, enc):
-            ctx.fail("utf16-output", "UTF-16/32 output is not read back as such (BOM per fragment; a UTF-16 meta means UTF-8)",
+            expected = trees.merge_text(trees.from_etree(html5lib.parse(
+                s.render(html5lib.filters.inject_meta_charset.Filter(walker(tree), enc)), treebuilder="etree")))
+            cls = "utf16-output" if bom_per_fragment_explains(data, enc, want, expected) else "utf16-output:other-cause"
+            ctx.fail(cls, "UTF-16/32 output is not read back as such (BOM per fragment; a UTF-16 meta means UTF-8)",
                      {"input": text, "encoding": enc, "used": getattr(used, "name", None)})
         return
     mismatch = codecs.lookup(enc).name != want.codec_info.name
@@ -132,10 +208,18 @@ def roundtrip(ctx, text, enc, omit):
     t1 = html5lib.parse(s.render(html5lib.filters.inject_meta_charset.Filter(walker(tree), enc)), treebuilder="etree")
     a1 = trees.merge_text(trees.from_etree(t1))
     if a1 != a2:
-        if mismatch:
+        # a recorded class only when the recorded defect explains the WHOLE difference between the two trees
+        c1_ref = any(("&#x%x;" % c).encode("ascii") in data for c in C1)
+        lossy = lossy_encode(a1, enc)          # the tree after the codec's own non-injective encoding (shift_jis: U+00A5, U+203E)
+        if c1_ref and c1_remap(a1) == a2:
+            cls = "c1-control-in-text"                       # exactly the C1 controls, written as references, changed
+        elif mismatch and python_codec_reads_back(data, enc, a1):
             cls = "codec-mismatch-python-vs-encoding-standard"
-        elif "\u0085" in text:
-            cls = "c1-control-in-text"
+        elif mismatch and c1_ref and python_codec_reads_back(data, enc, c1_remap(a1)):
+            cls = "codec-mismatch-python-vs-encoding-standard"   # both recorded defects together, and nothing else
+        elif lossy != a1 and (a2 in (lossy, c1_remap(lossy)) or
+                              (mismatch and (python_codec_reads_back(data, enc, lossy) or python_codec_reads_back(data, enc, c1_remap(lossy))))):
+            cls = "codec-encodes-character-as-another-without-error"
         else:
             cls = "tree-differs:%s" % enc
         ctx.fail(cls, "tree of the decoded bytes differs from the tree of the unencoded serialization", {"input": text, "encoding": enc, "omit": omit})
